@@ -285,6 +285,20 @@ pub struct ResponseUnit<'a> {
     has_data: bool,
 }
 
+#[cfg(feature = "verif-hooks")]
+impl<'a> ResponseUnit<'a> {
+    /// Verification hook: construct a response unit on top of an arbitrary formatter.
+    #[doc(hidden)]
+    pub fn verif_new(fmt: &'a mut dyn Formatter) -> Self {
+        ResponseUnit {
+            fmt,
+            result: Ok(()),
+            has_header: false,
+            has_data: false,
+        }
+    }
+}
+
 impl<'a> ResponseUnit<'a> {
     /// Response header
     ///
